@@ -277,14 +277,26 @@ def run(run):
         from pybufrkit.decoder import Decoder
         from pybufrkit.encoder import Encoder
         from pybufrkit.errors import UnknownDescriptor
-        good = Encoder().process(pyb.flat_json(4, [1001, 12001, 2001], 1, False, [[1, 250.1, 1]])).serialized_bytes
-        for pos, repl in ((0, b'\x3f\xfa'), (1, b'\x3f\xfa'), (2, b'\xff\xfa'), (1, b'\xff\xfa')):
-            at = good.find(b'\x01\x01\x0c\x01\x02\x01') + 2 * pos
+        def desc_octets(ids):
+            return b''.join(bytes([(i // 100000) * 64 + (i // 1000) % 100, i % 1000]) for i in ids)
+        # (template, values, position, undefined descriptor put there): plain, after the data-not-present operator 221 (a
+        # descriptor that carries no data still has to be a defined one), inside fixed and delayed replications
+        undef_cases = [([1001, 12001, 2001], [1, 250.1, 1], 0, 63250), ([1001, 12001, 2001], [1, 250.1, 1], 1, 63250),
+                       ([1001, 12001, 2001], [1, 250.1, 1], 2, 363250), ([1001, 12001, 2001], [1, 250.1, 1], 1, 363250),
+                       ([1001, 221001, 12001, 2001], [1, 1], 2, 12250), ([1001, 221002, 12001, 11003, 2001], [1, 1], 3, 11250),
+                       ([1001, 221002, 12001, 11003, 2001], [1, 1], 2, 63250),
+                       ([101002, 12001, 2001], [250.1, 251.1, 1], 1, 12250), ([101000, 31001, 12001], [1, 250.1], 2, 12250),
+                       ([102000, 31001, 12001, 301011], [1, 250.1, 2020, 1, 2], 3, 363250)]
+        for ids, vals, pos, und in undef_cases:
+            good = Encoder().process(pyb.flat_json(4, ids, 1, False, [vals])).serialized_bytes
+            at = good.find(desc_octets(ids)) + 2 * pos
+            repl = desc_octets([und])
             bad = good[:at] + repl + good[at + 2:]
             run.traces += 1
             try:
                 Decoder().process(bad)
-                run.violation(('undefined', 'decoded', 'skipped', 'pos%d' % pos), 'a message with an undefined descriptor decodes', {'kind': 'undef', 'msg': list(bad)})
+                run.violation(('undefined', 'decoded', 'skipped', 'after-221' if 221000 < ids[0] < 222000 or 221000 < ids[1] < 222000 else 'pos%d' % pos),
+                              'a message with the undefined descriptor %06d in %r decodes' % (und, ids), {'kind': 'undef', 'msg': list(bad)})
             except UnknownDescriptor:
                 pass
             except Exception as e:
